@@ -17,7 +17,7 @@ EQB = "(list_eqb outcome_obs_eqb)"
 SHARD = 150
 RULE = ("all sequences of up to 3 (quick) / 4 (thorough) operations over a 9-operation alphabet - read clean file, read "
         "file with a duplicate (raise and yield), read and abandon after 1 or 2 outputs, read without close, write rows "
-        "with a duplicate (with and without close), validate with limit 0 - on one CID (key field, IsUnique, "
+        "with a duplicate (with and without close), validate with limit 0 - plus five 'late finalisation' operations (an abandoned reader or an open writer is closed only after j outputs of the next run), alone and before/after every other operation - on one CID (key field, IsUnique, "
         "DistinctCount count <= 2) over data sets sharing key values, exhaustively; plus random longer histories over "
         "random CIDs. A variant constructs all Reader objects before the first operation runs (construction must not touch the checks). Every operation's outcome is also compared with the same operation on a freshly loaded CID in "
         "the implementation itself. Non-trivial: a history of at least 2 operations. Distinct = distinct history.")
@@ -43,6 +43,14 @@ ALPHABET = [
     {"op": "write", "rows": [["b", "x"], ["c", "y"], ["d", "x"]], "close": True},
     {"op": "validate", "limit": 0, "table": CLEAN},
 ]
+# an earlier run left unfinished and finalized in the middle of this one (after j outputs)
+LATE = [
+    {"op": "late", "first": {"kind": "read", "mode": "raise", "limit": None, "table": THREE, "k": 1}, "mode": "yield", "limit": None, "table": DUP, "j": 1},
+    {"op": "late", "first": {"kind": "read", "mode": "yield", "limit": None, "table": DUP, "k": 2}, "mode": "raise", "limit": None, "table": DUP, "j": 2},
+    {"op": "late", "first": {"kind": "write", "rows": [["a", "x"], ["b", "y"]]}, "mode": "yield", "limit": None, "table": DUP, "j": 2},
+    {"op": "late", "first": {"kind": "read", "mode": "raise", "limit": None, "table": CLEAN, "k": 1}, "mode": "raise", "limit": None, "table": THREE, "j": 2},
+    {"op": "late", "first": {"kind": "write", "rows": [["a", "x"]]}, "mode": "continue", "limit": None, "table": THREE, "j": 1},
+]
 
 
 def canon_outs(outs, spec):
@@ -60,7 +68,7 @@ def prepare(cid, spec, op):
 def do_op(cid, spec, op, pre=None):
     res = {"outs": [], "raised": None, "writes": [], "emitted": []}
     kind = op["op"]
-    if kind in ("rows", "abandon", "noclose", "validate"):
+    if kind in ("rows", "abandon", "noclose", "validate", "late"):
         text = V.encode(spec, op["table"], broken_tail=op.get("fault", False))
         stream = io.StringIO(text, newline="")
     try:
@@ -98,6 +106,41 @@ def do_op(cid, spec, op, pre=None):
                     outs.append(r)
             finally:
                 res["outs"] = canon_outs(outs, spec)
+        elif kind == "late":
+            first = op["first"]
+            if first["kind"] == "read":
+                text1 = V.encode(spec, first["table"])
+                gen1 = validio.rows(cid, io.StringIO(text1, newline=""), on_error=first["mode"], validate_until=first["limit"])
+                try:
+                    for _ in itertools.islice(gen1, first["k"]):
+                        pass
+                except Exception:  # noqa
+                    pass
+                finalize = gen1.close
+            else:
+                writer1 = validio.Writer(cid, io.StringIO())
+                for row in first["rows"]:
+                    try:
+                        writer1.write_row(list(row))
+                    except Exception:  # noqa
+                        pass
+
+                def finalize():
+                    try:
+                        writer1.close()
+                    except Exception:  # noqa
+                        pass
+            gen2 = validio.rows(cid, stream, on_error=op["mode"], validate_until=op["limit"])
+            outs = []
+            try:
+                for r in itertools.islice(gen2, op["j"]):
+                    outs.append(r)
+                finalize()      # the earlier run is finalized only now, in the middle of this one
+                for r in gen2:
+                    outs.append(r)
+            finally:
+                res["outs"] = canon_outs(outs, spec)
+                finalize()
         elif kind == "write":
             target = io.StringIO()
             writer = validio.Writer(cid, target)
@@ -130,6 +173,14 @@ def coq_op(spec, op):
         return "(OpRows %s %s %s %s)" % (V.MODES[op["mode"]], O(op["limit"], Nat), R, B(fault))
     if kind == "validate":
         return "(OpValidate %s %s %s)" % (O(op["limit"], Nat), R, B(fault))
+    if kind == "late":
+        first = op["first"]
+        if first["kind"] == "read":
+            raws1, _ = V.raw_rows(cid, spec, V.encode(spec, first["table"]))
+            F = "(LFRead %s %s %s %s)" % (V.MODES[first["mode"]], O(first["limit"], Nat), L(raws1, lambda r: L(r, S)), Nat(first["k"]))
+        else:
+            F = "(LFWrite %s)" % L(first["rows"], lambda r: L(r, S))
+        return "(OpLate %s %s %s %s %s %s)" % (F, V.MODES[op["mode"]], O(op["limit"], Nat), R, B(fault), Nat(op["j"]))
     if kind == "abandon":
         return "(OpAbandon %s %s %s %s %s)" % (V.MODES[op["mode"]], O(op["limit"], Nat), R, B(fault), Nat(op["k"]))
     return "(OpNoClose %s %s %s %s)" % (V.MODES[op["mode"]], O(op["limit"], Nat), R, B(fault))
@@ -176,12 +227,25 @@ def gen_inputs(tier, rnd):
             yield {"spec": SPEC, "history": list(hist)}
             if n <= 2 or (tier != "quick" and n <= 3):
                 yield {"spec": SPEC, "history": list(hist), "pre": True}
+    for late in LATE:
+        yield {"spec": SPEC, "history": [late]}
+        for other in ALPHABET:
+            yield {"spec": SPEC, "history": [other, late]}
+            yield {"spec": SPEC, "history": [late, other]}
     for _ in range(60 if tier == "quick" else 1500):
         spec = V.gen_spec(rnd, fmt="delimited", header=rnd.choice([0, 0, 1]))
         hist = []
         for _ in range(rnd.randint(2, 6 if tier == "quick" else 12)):
-            k = rnd.choice(["rows", "rows", "validate", "abandon", "noclose", "write"])
-            if k == "write":
+            k = rnd.choice(["rows", "rows", "validate", "abandon", "noclose", "write", "late"])
+            if k == "late":
+                if rnd.random() < 0.6:
+                    first = {"kind": "read", "mode": rnd.choice(["raise", "yield", "continue"]), "limit": rnd.choice([None, None, 1]),
+                             "table": V.gen_table(rnd, spec), "k": rnd.randint(0, 3)}
+                else:
+                    first = {"kind": "write", "rows": V.gen_table(rnd, spec, ragged=True)}
+                hist.append({"op": "late", "first": first, "mode": rnd.choice(["raise", "yield", "continue"]), "limit": rnd.choice([None, None, 2]),
+                             "table": V.gen_table(rnd, spec), "fault": rnd.random() < 0.15, "j": rnd.randint(0, 4)})
+            elif k == "write":
                 hist.append({"op": "write", "rows": [r for r in V.gen_table(rnd, spec, ragged=True) if True], "close": rnd.random() < 0.5})
             else:
                 op = {"op": k, "mode": rnd.choice(["raise", "yield", "continue"]), "limit": rnd.choice([None, None, 0, 1, 3]),
